@@ -1,10 +1,13 @@
 #!/bin/bash
 # applies every harmless rewrite to a scratch worktree, verifies the suite passes, runs every check against it
 cd /verif
-OUT=/verif/mutants/harmless/RESULTS.txt; : > $OUT
+# usage: run_harmless.sh [name-prefix ...]  (results of the named rewrites are appended; without arguments everything is re-run)
+OUT=/verif/mutants/harmless/RESULTS.txt; [ $# -eq 0 ] && : > $OUT
+SEL="$*"
 export GOFLAGS=-mod=mod GOPROXY=off GOSUMDB=off GOTOOLCHAIN=local
 for d in mutants/harmless/*.diff; do
   n=$(basename $d .diff); W=/tmp/hm_$n
+  if [ -n "$SEL" ]; then keep=0; for x in $SEL; do case $n in $x*) keep=1;; esac; done; [ $keep -eq 1 ] || continue; fi
   git -C /repo worktree add -q --detach $W HEAD && (cd $W && git apply /verif/$d) || { echo "$n: patch failed" >> $OUT; continue; }
   (cd $W/lib && go build ./... && go test -vet=off -count=1 ./... >/dev/null 2>&1) && echo "$n: suite passes" >> $OUT || echo "$n: SUITE FAILS" >> $OUT
   for p in $(seq -w 1 20); do
